@@ -208,11 +208,11 @@ func StdData(r *rand.Rand) val.V {
 		{K: "fone", V: val.Fn("one")}, {K: "fpanic", V: val.Fn("panic")}, {K: "fnildec", V: val.Fn("retnildec")}, {K: "fnilptr", V: val.Fn("retnilptr")}, {K: "fanys", V: val.Fn("anys")}, {K: "ftime", V: val.Fn("time")}, {K: "fmap", V: val.Fn("mapf")},
 	}
 	// odd kinds under fixed names
-	kv = append(kv, val.KV{K: "x0", V: val.RandValue(r, 2)}, val.KV{K: "x1", V: val.RandValue(r, 3)}, val.KV{K: "x2", V: val.RandScalar(r)})
+	kv = append(kv, val.KV{K: "x0", V: val.RandValue(r, 2)}, val.KV{K: "x1", V: val.RandValue(r, 3)}, val.KV{K: "x2", V: val.RandScalar(r)}, val.KV{K: "odd", V: val.OddKind(r)}, val.KV{K: "odd2", V: val.OddKind(r)})
 	return val.Map(kv...)
 }
 
-var stdNames = []string{"n0", "n1", "s0", "s1", "b0", "z", "m", "tm", "arr", "strs", "ms", "st", "pst", "nilp", "nd", "t0", "d0", "u0", "x0", "x1", "x2", "undefinedname", "$v", "$w"}
+var stdNames = []string{"n0", "n1", "s0", "s1", "b0", "z", "m", "tm", "arr", "strs", "ms", "st", "pst", "nilp", "nd", "t0", "d0", "u0", "x0", "x1", "x2", "odd", "odd2", "undefinedname", "$v", "$w"}
 var stdFuncs = []string{"fid", "ferr", "fsum", "fcat", "fnums", "fstrs", "fctx", "fnoret", "fone", "fpanic", "fanys", "ftime", "fmap", "fnildec", "fnilptr", "undefinedfn", "n0", "s0", "m", "z"}
 var stdMembers = []string{"k", "name", "b", "f", "A", "S", "M", "priv", "Z", "missing"}
 
